@@ -167,6 +167,35 @@ example :
     (replayVC demoEpoch (bundleOf p)).fin.highest = 5 ∧ ParentReady.parentsReady (replayVC demoEpoch (bundleOf p)).pr 8 = [(5, 3)] := by
   decide
 
+/-- … and the theorems, instantiated on this history (all premises discharged by evaluation) -/
+example :
+    (replayCV demoEpoch (bundleOf (poolRun { epoch := demoEpoch } demoSender).1)).fin.highest =
+      (poolRun { epoch := demoEpoch } demoSender).1.fin.highest ∧
+    ∀ b, b ∈ ParentReady.parentsReady (replayCV demoEpoch (bundleOf (poolRun { epoch := demoEpoch } demoSender).1)).pr
+          (nextWindow (poolRun { epoch := demoEpoch } demoSender).1.fin.highest) ↔
+        b ∈ ParentReady.parentsReady (poolRun { epoch := demoEpoch } demoSender).1.pr
+          (nextWindow (poolRun { epoch := demoEpoch } demoSender).1.fin.highest) := by
+  have hcons : Consistent (poolLog { epoch := demoEpoch } demoSender) := by decide
+  have hnf : NfAgree (poolLog { epoch := demoEpoch } demoSender) := (nfAgreeC_iff hcons.safe).mp (by decide)
+  have hb : (poolRun { epoch := demoEpoch } demoSender).1.recover =
+      [.standstill ((poolRun { epoch := demoEpoch } demoSender).1.fin.highest + 1)
+        (bundleOf (poolRun { epoch := demoEpoch } demoSender).1).1 (bundleOf (poolRun { epoch := demoEpoch } demoSender).1).2] := by
+    decide
+  have hfed : ∀ op ∈ (bundleOf (poolRun { epoch := demoEpoch } demoSender).1).1.map PoolOp.cert ++
+        (bundleOf (poolRun { epoch := demoEpoch } demoSender).1).2.map PoolOp.vote,
+      (∃ c ∈ (bundleOf (poolRun { epoch := demoEpoch } demoSender).1).1, op = .cert c) ∨
+      (∃ v ∈ (bundleOf (poolRun { epoch := demoEpoch } demoSender).1).2, op = .vote v) := by
+    intro op hop
+    rcases List.mem_append.mp hop with h | h
+    · obtain ⟨c, hc, rfl⟩ := List.mem_map.mp h; exact Or.inl ⟨c, hc, rfl⟩
+    · obtain ⟨v, hv, rfl⟩ := List.mem_map.mp h; exact Or.inr ⟨v, hv, rfl⟩
+  have hall : ∀ c ∈ (bundleOf (poolRun { epoch := demoEpoch } demoSender).1).1,
+      PoolOp.cert c ∈ (bundleOf (poolRun { epoch := demoEpoch } demoSender).1).1.map PoolOp.cert ++
+        (bundleOf (poolRun { epoch := demoEpoch } demoSender).1).2.map PoolOp.vote :=
+    fun c hc => List.mem_append_left _ (List.mem_map.mpr ⟨c, hc, rfl⟩)
+  exact ⟨bundle_replay_finalized demoEpoch demoSender hcons (by decide) (by decide) _ _ hb _ hfed hall,
+    fun b => bundle_replay_parents demoEpoch demoSender hcons hnf (by decide) (by decide) _ _ hb _ hfed hall b⟩
+
 /-- **`hown` is necessary for the parents clause** (in the model; signatures are symbolic): the node holds 60 % of the
     stake, it received a notarization certificate for block (3,8) that carries its own signature, and voted for
     (3,7).  The history is `Consistent` and `NfAgree`, nothing is finalized.  A receiver that gets the own vote
